@@ -1,4 +1,173 @@
+import IpcHub.Drv.Util
+import IpcHub.Model.RtspWireInst
+import IpcHub.Spec.RtspCodec
 namespace IpcHub.Drv.C14
-/-- placeholder: no model built for this property yet -/
-def handle (_ : List String) : String := "bad-op"
+open IpcHub.RtspWire IpcHub.Drv
+
+local notation "Bytes" => List UInt8
+
+/-- the driver's instance of `net/url`: the harness supplies, for every Request-URI that
+    occurs, what `url.ParseRequestURI` said (table), so that `net/url` itself stays a
+    parameter of the model -/
+structure DrvUrl where
+  host : Bytes
+  str : Bytes          -- String() as parsed
+  strTrim : Bytes      -- String() after Host = TrimSuffix(Host, ":")
+
+structure UrlEntry where
+  rurl : Bytes
+  res : Option DrvUrl
+
+def hexOpt (s : String) : Option Bytes := hexToBytes s
+
+/-- table: "-" or entries `rurl:ok:host:str:strTrim` separated by ',' -/
+def parseUrlTable (s : String) : Option (List UrlEntry) :=
+  if s = "-" then some [] else
+  (s.splitOn ",").mapM (fun e =>
+    match e.splitOn ":" with
+    | [r, ok, h, a, b] =>
+      match hexOpt r, hexOpt h, hexOpt a, hexOpt b with
+      | some r, some h, some a, some b =>
+        some ⟨r, if ok = "1" then some ⟨h, a, b⟩ else none⟩
+      | _, _, _, _ => none
+    | _ => none)
+
+/-- `missing` collects look-ups that the table could not answer (the harness adds them and asks again) -/
+def mkOps (table : List UrlEntry) : UrlOps (Option DrvUrl × Bytes) :=
+  { parse := fun r =>
+      match table.find? (fun e => e.rurl = r) with
+      | some e => e.res.map (fun u => (some u, r))
+      | none => some (none, r)          -- unknown: remembered as a request for the table
+    print := fun u => match u.1 with | some d => d.str | none => []
+    host := fun u => match u.1 with | some d => d.host | none => []
+    setHost := fun u h => match u.1 with
+      | some d => (some { host := h, str := d.strTrim, strTrim := d.strTrim }, u.2)
+      | none => u }
+
+def showErr : Err → String
+  | .eof => "eof" | .unexpectedEOF => "ueof" | .lineTooLong => "line-too-long" | .bodyTooLarge => "body-too-large"
+  | .malformedRequest => "malformed-request" | .invalidMethod => "invalid-method" | .invalidURI => "invalid-uri"
+  | .urlParse => "url-parse" | .malformedHeader => "malformed-header" | .malformedResponse => "malformed-response"
+  | .malformedStatus => "malformed-status" | .rtpPrefix => "rtp-prefix" | .rtpChannel => "rtp-channel"
+  | .rtpHeader => "rtp-header" | .panic => "panic"
+
+/-- header rendering: keys sorted, `k=v1|v2` joined by ';' (all hex), "-" when empty -/
+def showHeader (h : Header) : String :=
+  if h.isEmpty then "-" else
+  ";".intercalate ((sortHeader h).map (fun kv => bytesToHex kv.1 ++ "=" ++ "|".intercalate (kv.2.map bytesToHex)))
+
+def parseHeader (s : String) : Option Header :=
+  if s = "-" then some [] else
+  (s.splitOn ";").mapM (fun e =>
+    match e.splitOn "=" with
+    | [k, vs] =>
+      match hexToBytes k, (if vs = "" then some [] else (vs.splitOn "|").mapM hexToBytes) with
+      | some k, some vs => some (k, vs)
+      | _, _ => none
+    | _ => none)
+
+def showReq (ops : UrlOps (Option DrvUrl × Bytes)) (r : Request (Option DrvUrl × Bytes)) : String :=
+  s!"req,{bytesToHex r.method},{bytesToHex (ops.print r.url)},{bytesToHex r.proto},{showHeader r.header},{bytesToHex r.body}"
+
+def showResp (r : Response) : String :=
+  s!"resp,{bytesToHex r.proto},{r.statusCode},{bytesToHex r.status},{showHeader r.header},{bytesToHex r.body}"
+
+def showPkt (p : Packet) : String := s!"pkt,{p.channel},{p.payloadOffset},{bytesToHex p.data}"
+
+def missingUrl (evs : List (Event (Option DrvUrl × Bytes))) : Option Bytes :=
+  evs.findSome? (fun e => match e with
+    | .request r => match r.url.1 with | none => some r.url.2 | some _ => none
+    | _ => none)
+
+def showEvent (ops : UrlOps (Option DrvUrl × Bytes)) : Event (Option DrvUrl × Bytes) → String
+  | .request r => showReq ops r
+  | .response r => showResp r
+  | .packet p => showPkt p
+  | .skipped => "skip"
+
+def parseInts (s : String) : Option (List Int) :=
+  if s = "-" then some [] else (s.splitOn ",").mapM (·.toInt?)
+
+def fieldsOfSpec (fs : List (Bytes × Bytes)) : Header := fs.map (fun f => (f.1, [f.2]))
+
+def handle : List String → String
+  /- the receive loop over a whole stream -/
+  | ["recv", _meta, chans, table, stream] =>
+    match parseInts chans, parseUrlTable table, hexToBytes stream with
+    | some cs, some tb, some s =>
+      let ops := mkOps tb
+      let r := receiveAll genCfg ops cs (s.length + 1) s
+      match missingUrl r.1 with
+      | some u => s!"need-url={bytesToHex u}"
+      | none =>
+        let evs := if r.1.isEmpty then "-" else "/".intercalate (r.1.map (showEvent ops))
+        s!"events={evs} err={showErr r.2}"
+    | _, _, _ => "bad-op"
+  /- one reader called directly -/
+  | ["read", "req", _meta, table, stream] =>
+    match parseUrlTable table, hexToBytes stream with
+    | some tb, some s =>
+      let ops := mkOps tb
+      match readRequest genCfg ops s with
+      | .error e => s!"err={showErr e}"
+      | .ok (r, rest) =>
+        match r.url.1 with
+        | none => s!"need-url={bytesToHex r.url.2}"
+        | some _ => s!"ok={showReq ops r} rest={rest.length}"
+    | _, _ => "bad-op"
+  | ["read", "resp", _meta, stream] =>
+    match hexToBytes stream with
+    | some s =>
+      match readResponse genCfg s with
+      | .error e => s!"err={showErr e}"
+      | .ok (r, rest) => s!"ok={showResp r} rest={rest.length}"
+    | none => "bad-op"
+  | ["read", "pkt", _meta, chans, stream] =>
+    match parseInts chans, hexToBytes stream with
+    | some cs, some s =>
+      match readPacket genCfg cs s with
+      | .error e => s!"err={showErr e}"
+      | .ok (some p, rest) => s!"ok={showPkt p} rest={rest.length}"
+      | .ok (none, rest) => s!"ok=skip rest={rest.length}"
+    | _, _ => "bad-op"
+  /- writers: model output and the specification's encoding of the normal form -/
+  | ["wreq", urlok, method, url, hdr, body] =>
+    match hexToBytes method, hexToBytes url, parseHeader hdr, hexToBytes body with
+    | some m, some u, some h, some b =>
+      let ops := mkOps []
+      let r : Request (Option DrvUrl × Bytes) := { method := m, url := (some ⟨[], u, u⟩, u), proto := [], header := h, body := b }
+      let fs := IpcHub.RtspSpec.normalFields h b
+      let valid := urlok = "1" && IpcHub.RtspSpec.requestValid m fs b && (u != [0x2A] || m == methodOptions)
+      let expect := s!"req,{bytesToHex m},{bytesToHex u},{bytesToHex (ascii "RTSP/1.0")},{showHeader (IpcHub.RtspSpec.decodedFields fs)},{bytesToHex b}"
+      s!"wire={bytesToHex (writeRequest ops r)} spec={bytesToHex (IpcHub.RtspSpec.encodeRequest m u fs b)} valid={boolStr valid} expect={expect}"
+    | _, _, _, _ => "bad-op"
+  | ["wresp", code, status, hdr, body] =>
+    match code.toNat?, hexToBytes status, parseHeader hdr, hexToBytes body with
+    | some c, some st, some h, some b =>
+      let fs := IpcHub.RtspSpec.normalFields h b
+      let reason := statusTextOf genStatusTable c st
+      let valid := IpcHub.RtspSpec.responseValid c reason fs b
+      let status := IpcHub.RtspSpec.decimal c ++ [0x20] ++ reason
+      let expect := s!"resp,{bytesToHex (ascii "RTSP/1.0")},{c},{bytesToHex status},{showHeader (IpcHub.RtspSpec.decodedFields fs)},{bytesToHex b}"
+      s!"wire={bytesToHex (writeResponse genStatusTable c st h b)} spec={bytesToHex (IpcHub.RtspSpec.encodeResponse c reason fs b)} valid={boolStr valid} expect={expect}"
+    | _, _, _, _ => "bad-op"
+  | ["wpkt", rtpok, chans, channel, data] =>
+    match parseInts chans, channel.toNat?, hexToBytes data with
+    | some cs, some c, some d =>
+      match writePacket cs c d with
+      | none => "wire=error valid=0"
+      | some w =>
+        match cs[c]? with
+        | some ch =>
+          -- a frame the property speaks about: channel number 0..255 that the table maps back
+          -- to this channel type, payload of at most 65535 bytes, and (media channels) an RTP header
+          let valid := decide (0 ≤ ch ∧ ch ≤ 255) && findChannel cs ch 0 == some c && decide (d.length ≤ 65535)
+            && (c == 1 || c == 3 || rtpok = "1")
+          s!"wire={bytesToHex w} spec={bytesToHex (IpcHub.RtspSpec.encodeFrame (UInt8.ofNat ch.toNat) d)} valid={boolStr valid} expect=pkt,{c},{bytesToHex d}"
+        | none => "wire=error valid=0"
+    | _, _, _ => "bad-op"
+  | ["limits"] =>
+    s!"line={genCfg.maxLine} body={genCfg.maxBody} bodyerr={boolStr genCfg.bodyErrReturned} unknownpkt={boolStr genCfg.unknownChanPacket} rtprecover={boolStr genCfg.rtpRecover}"
+  | _ => "bad-op"
+
 end IpcHub.Drv.C14
